@@ -276,10 +276,34 @@ func one(d desc, mode string) {
 	}
 	// very large outputs (also when replayed): fingerprints only, closedness of the model's list is not re-evaluated in Coq
 	big := mode == "big" || len(p.Idx) >= bigIdxCount
+	if big {
+		small = false // whatever the parameters say: an output of this size is never written out in full
+	}
 	c := hx.Case{Kind: "prim", Desc: d, Key: d.key(), Nontriv: len(p.Idx) >= 3, GoFail: gofail}
+	// closedness of the implementation's own output after merging, on every case (the Coq evaluator re-decides it with
+	// the verified checker wherever the lists are written out in full)
+	{
+		w := make([]int, len(p.Idx))
+		bad := ""
+		for i, x := range p.Idx {
+			if x < 0 || x >= len(rep) {
+				bad = fmt.Sprintf("index %d out of range", x)
+				break
+			}
+			w[i] = rep[x]
+		}
+		if bad == "" {
+			bad = closedGo(w)
+		}
+		if bad != "" && c.GoFail == "" {
+			c.GoFail = "not closed after merging coincident positions: " + bad
+		}
+	}
 	cube := d.Fam == "cubeW" || d.Fam == "cubeQ"
 	switch {
-	case cube && isEvenInt(d.Width) && isEvenInt(d.Height) && isEvenInt(d.Depth):
+	case cube && !big && isEvenInt(d.Width) && isEvenInt(d.Height) && isEvenInt(d.Depth) && len(p.Pos) == map[string]int{"cubeW": 8, "cubeQ": 24}[d.Fam]:
+		// (a box with another vertex count is compared as index + class lists only: its closedness is the property,
+		// the integer corner table is the model's business)
 		// exact integer positions (six-quad box: float rotation error < 1e-9 relative, checked here)
 		var items []string
 		for i, v := range p.Pos {
@@ -297,21 +321,6 @@ func one(d desc, mode string) {
 		c.Coq = fmt.Sprintf("CFull %s %d %s %s", famCoq(d), len(p.Pos), hx.CoqListN(p.Idx), hx.CoqListN(rep))
 		run.Count("shape:full")
 	default:
-		w := make([]int, len(p.Idx))
-		bad := ""
-		for i, x := range p.Idx {
-			if x < 0 || x >= len(rep) {
-				bad = fmt.Sprintf("index %d out of range", x)
-				break
-			}
-			w[i] = rep[x]
-		}
-		if bad == "" {
-			bad = closedGo(w)
-		}
-		if bad != "" && c.GoFail == "" {
-			c.GoFail = "not closed after merging coincident positions: " + bad
-		}
 		ctor := "CHash"
 		if big {
 			ctor = "CBig"
